@@ -51,7 +51,7 @@ def dump_mir(repo='/repo', work=None, features=False):
 
 
 class Fn:
-    __slots__ = ('name', 'nparams', 'ptypes', 'ret', 'blocks', 'ipdom', 'succ', 'generic')
+    __slots__ = ('name', 'nparams', 'ptypes', 'ret', 'blocks', 'ipdom', 'succ', 'generic', 'ltypes')
 
     def __init__(s, name, nparams, ptypes, ret, blocks):
         s.name, s.nparams, s.ptypes, s.ret, s.blocks = name, nparams, ptypes, ret, blocks
@@ -106,7 +106,9 @@ class Mir:
             for b in re.finditer(r'^    bb(\d+)(?: \(cleanup\))?: \{\n(.*?)^    \}\n', body, re.S | re.M):
                 lines = [l.strip().rstrip(';') for l in b.group(2).split('\n') if l.strip()]
                 blocks[int(b.group(1))] = lines
-            s.fns[name] = Fn(name, len(ptypes), ptypes, ret, blocks)
+            fn_ = Fn(name, len(ptypes), ptypes, ret, blocks)
+            fn_.ltypes = {int(a): b for a, b in re.findall(r'^\s*let (?:mut )?_(\d+): (.*?);', body, re.M)}
+            s.fns[name] = fn_
         s.impls = {}
         s.closures = {}
         for name, fn in s.fns.items():
@@ -189,6 +191,15 @@ class Ptr:
 
     def __repr__(s):
         return 'Ptr%r' % (s.key(),)
+
+
+class AbsArr:
+    """array of symbolic length whose contents are not tracked (reads return fresh reals, writes are dropped):
+    a sound over-approximation for properties that do not depend on the stored values (totality)"""
+    __slots__ = ('n',)
+
+    def __init__(s, n):
+        s.n = n
 
 
 class Arr:
@@ -385,6 +396,9 @@ class Executor:
         return s.heap[ptr.oid]
 
     def make_box(s, elems):
+        if isinstance(elems, AbsArr):
+            oid = s.alloc(elems, 'H')
+            return Agg('Box', (Agg('Unique', (Ptr(oid, (), 0, elems.n),)),))
         oid = s.alloc(Arr(elems), 'H')
         return Agg('Box', (Agg('Unique', (Ptr(oid, (), 0, len(elems)),)),))
 
@@ -458,6 +472,8 @@ class Executor:
                 if st[1] not in val.pay: raise PathDead('downcast to absent variant ' + st[1])
                 val = Agg('variant', val.pay[st[1]])
             elif st[0] == 'i':
+                if isinstance(val, AbsArr):
+                    return s.fresh_real('absread')
                 if not isinstance(val, Arr): raise Unsupported('index of %r' % (type(val),))
                 idx = st[1]
                 if not is_sym(idx):
@@ -485,6 +501,7 @@ class Executor:
             pay[st[1]] = inner.f
             return EnumV(val.ty, val.discr, pay)
         if st[0] == 'i':
+            if isinstance(val, AbsArr): return val
             if not isinstance(val, Arr): raise Unsupported('index write on %r' % (type(val),))
             idx = st[1]
             e = list(val.e)
@@ -570,10 +587,14 @@ class Executor:
         if op in ('AddWithOverflow', 'SubWithOverflow', 'MulWithOverflow'):
             base = {'AddWithOverflow': 'Add', 'SubWithOverflow': 'Sub', 'MulWithOverflow': 'Mul'}[op]
             r = s.binop(base, a, b)
+            mt = re.match(r'\((u8|u16|u32|u64|usize|u128|i8|i16|i32|i64|isize)', getattr(s, 'dest_type', '') or '')
+            ty = mt.group(1) if mt else 'usize'
+            bits = {'u8': 8, 'u16': 16, 'u32': 32, 'u64': 64, 'usize': 64, 'u128': 128, 'i8': 8, 'i16': 16, 'i32': 32, 'i64': 64, 'isize': 64}[ty]
+            lo_, hi_ = (-(2 ** (bits - 1)), 2 ** (bits - 1)) if ty.startswith('i') else (0, 2 ** bits)
             if is_sym(r):
-                ov = z3.Or(r >= 2 ** 64, r < 0)
+                ov = z3.Or(r >= hi_, r < lo_)
             else:
-                ov = (r >= 2 ** 64 or r < 0)
+                ov = (r >= hi_ or r < lo_)
             return Agg('tuple', (r, ov))
         if op.endswith('Unchecked'): op = op[:-9]
         if isinstance(a, bool) or isinstance(b, bool) or (is_sym(a) and z3.is_bool(a)) or (is_sym(b) and z3.is_bool(b)):
@@ -656,6 +677,13 @@ class Executor:
             v = s.operand(fr, m.group(1)); kind = m.group(3)
             if kind == 'IntToFloat':
                 return Fraction(v) if not is_sym(v) else z3.ToReal(v)
+            if kind == 'IntToInt':
+                tgt = m.group(2).strip()
+                bits = {'u8': 8, 'u16': 16, 'u32': 32}.get(tgt)
+                if bits and not isinstance(v, bool):
+                    if is_sym(v): return v % (2 ** bits)
+                    if isinstance(v, int): return v % (2 ** bits)
+                return v
             if kind in ('Transmute', 'PtrToPtr', 'IntToInt', 'FloatToFloat') or kind.startswith('PointerCoercion'):
                 while isinstance(v, Agg) and len(v.f) == 1 and kind == 'Transmute' and v.kind in ('NonNull', 'Unique'):
                     v = v.f[0]
@@ -794,6 +822,8 @@ class Executor:
         i = line.find(' = ')
         if i < 0: raise Unsupported('statement ' + line)
         dest, rv = line[:i], line[i + 3:]
+        md = re.fullmatch(r'_(\d+)', dest.strip())
+        s.dest_type = fn.ltypes.get(int(md.group(1)), '') if (md and getattr(fn, 'ltypes', None)) else ''
         v = s.rvalue(fr, rv)
         s.write_place(fr, s.parse_place(dest), v)
 
